@@ -198,7 +198,7 @@ def canAcceptBasic (w : World) (x p : Nat) : Bool :=
   let d := w.dev x
   match d.kind with
   | .buffer =>
-    (match d.cap with | none => true | some c => decide (d.level + w.leafCount p ≤ c)) &&
+    (match d.cap with | none => true | some c => decide (d.level + w.leafCount p ≤ c) && decide (d.level < c)) &&
       w.operational x && !d.blockInput && d.part.isNone && d.output.isNone
   | .source | .handler | .processor | .batcher | .sink =>
     w.operational x && !d.blockInput && d.part.isNone && d.output.isNone
